@@ -81,6 +81,62 @@ func VerifyFunc(pr *Prog, eff *Effects, fi *FuncInfo, opts VerifyOpts) (rep *Fun
 	st := NewState()
 	ps := x.paramVars(fi)
 	sig := fi.Obj.Type().(*types.Signature)
+	fnType, fnBody := fi.Decl.Type, fi.Decl.Body
+	if fi.Lit != nil {
+		// a function literal verified on its own: the enclosing function's parameters and the locals declared before the
+		// literal (the variables it can capture) hold arbitrary values
+		pfr := x.newFrame(fi.Parent, nil, nil, nil)
+		for _, p := range x.paramVars(fi.Parent) {
+			if p == nil || p.Name() == "_" {
+				continue
+			}
+			if _, isFn := types.Unalias(p.Type()).Underlying().(*types.Signature); isFn {
+				continue
+			}
+			if isRefParamType(p.Type()) {
+				et := derefType(p.Type())
+				k := "deref$" + p.Name()
+				st.env[k] = x.freshTyped(st, "cap$"+p.Name(), et)
+				pfr.refParams[p] = PVar{k, et}
+				continue
+			}
+			x.declVar(st, pfr, p, x.freshTyped(st, "cap$"+p.Name(), p.Type()))
+		}
+		if scope := fi.Pkg.TypesInfo.Scopes[fi.Parent.Decl.Type]; scope != nil {
+			var decl func(sc *types.Scope)
+			decl = func(sc *types.Scope) {
+				for _, n := range sc.Names() {
+					if v, ok := sc.Lookup(n).(*types.Var); ok && v.Pos() < fi.Lit.Pos() {
+						if _, _, have := pfr.lookupVar(v); !have {
+							if _, isFn := types.Unalias(v.Type()).Underlying().(*types.Signature); isFn {
+								continue
+							}
+							x.declVar(st, pfr, v, x.freshTyped(st, "cap$"+v.Name(), v.Type()))
+						}
+					}
+				}
+				for i := 0; i < sc.NumChildren(); i++ {
+					c := sc.Child(i)
+					if c.Pos() <= fi.Lit.Pos() && fi.Lit.End() <= c.End() {
+						decl(c)
+					}
+				}
+			}
+			decl(scope)
+		}
+		fr = x.newFrame(fi, fi.Lit, pfr, nil)
+		fr.top = true
+		fnType, fnBody = fi.Lit.Type, fi.Lit.Body
+		sig = fi.Pkg.TypesInfo.TypeOf(fi.Lit).(*types.Signature)
+		ps = nil
+		for _, f := range fi.Lit.Type.Params.List {
+			for _, n := range f.Names {
+				if v, ok := fi.Pkg.TypesInfo.Defs[n].(*types.Var); ok {
+					ps = append(ps, v)
+				}
+			}
+		}
+	}
 	for i, p := range ps {
 		if p == nil || p.Name() == "_" {
 			continue
@@ -152,7 +208,7 @@ func VerifyFunc(pr *Prog, eff *Effects, fi *FuncInfo, opts VerifyOpts) (rep *Fun
 		}
 	}
 	if spec != nil {
-		env := x.newSpecEnvFrame(st, fr, fi.Decl.Body.Lbrace+1)
+		env := x.newSpecEnvFrame(st, fr, fnBody.Lbrace+1)
 		for _, r := range spec.Requires {
 			st.assume(env.evalBool(r.Expr))
 		}
@@ -164,7 +220,7 @@ func VerifyFunc(pr *Prog, eff *Effects, fi *FuncInfo, opts VerifyOpts) (rep *Fun
 	}
 	fr.entry = st.clone()
 	if spec != nil && spec.Decr != nil {
-		env := x.newSpecEnvFrame(st, fr, fi.Decl.Body.Lbrace+1)
+		env := x.newSpecEnvFrame(st, fr, fnBody.Lbrace+1)
 		x.entryMeasure = x.ctx.Define("measure0", env.eval(spec.Decr.Expr).t)
 	}
 	if spec != nil && spec.HasMod {
@@ -173,14 +229,18 @@ func VerifyFunc(pr *Prog, eff *Effects, fi *FuncInfo, opts VerifyOpts) (rep *Fun
 		for _, k := range x.expandModifies(spec.Modifies, fi) {
 			decl[k] = true
 		}
-		for _, k := range sortedKeys(eff.Of(fi).regions) {
+		bodyEff := eff.Of(fi)
+		if fi.Lit != nil {
+			bodyEff = eff.OfLit(fi.Pkg, fi.Lit)
+		}
+		for _, k := range sortedKeys(bodyEff.regions) {
 			if !decl[k] {
 				o := x.emit(st, fi.Key+"/frame.modifies["+k+"]", "frame", TFalse, fi.Decl.Pos(), "the body may write "+k+" which the modifies clause does not list")
 				o.Result = &SolveResult{Status: "frame-violation", Solver: "effects"}
 			}
 		}
 	}
-	rvs, rts := x.resultVars(fi.Pkg.TypesInfo, fi.Decl.Type)
+	rvs, rts := x.resultVars(fi.Pkg.TypesInfo, fnType)
 	for i, rv := range rvs {
 		key := fmt.Sprintf("r$%d$%d", fr.id, i)
 		if rv != nil {
@@ -191,7 +251,7 @@ func VerifyFunc(pr *Prog, eff *Effects, fi *FuncInfo, opts VerifyOpts) (rep *Fun
 		fr.results = append(fr.results, key)
 		fr.resultTys = append(fr.resultTys, rts[i])
 	}
-	o := x.execBlock(st, fr, fi.Decl.Body.List)
+	o := x.execBlock(st, fr, fnBody.List)
 	if len(o.brk) > 0 || len(o.cont) > 0 || len(o.gotos) > 0 {
 		x.unsupp(fi.Decl.Pos(), "stray branch at function level")
 	}
@@ -255,7 +315,7 @@ func VerifyFunc(pr *Prog, eff *Effects, fi *FuncInfo, opts VerifyOpts) (rep *Fun
 	}
 	if spec != nil {
 		if fin != nil && !fin.dead() {
-			env := x.newSpecEnvFrame(fin, fr, fi.Decl.Body.Lbrace+1)
+			env := x.newSpecEnvFrame(fin, fr, fnBody.Lbrace+1)
 			env.pos = 0
 			env.vars = entryParams
 			env.old = fr.entry
@@ -277,7 +337,7 @@ func VerifyFunc(pr *Prog, eff *Effects, fi *FuncInfo, opts VerifyOpts) (rep *Fun
 			}
 		}
 		if len(spec.EnsPanic) > 0 && pan != nil && !pan.dead() {
-			env := x.newSpecEnvFrame(pan, fr, fi.Decl.Body.Lbrace+1)
+			env := x.newSpecEnvFrame(pan, fr, fnBody.Lbrace+1)
 			env.pos = 0
 			env.vars = entryParams
 			env.old = fr.entry
